@@ -36,30 +36,10 @@ def rangeJson : Option (Nat × Nat) → Json
   | some (s, e) => natArr [s, e]
   | none => .null
 
-/-! ### Unstable sort: which orders may the implementation return?
+/-! ### One answer of the model, in the shape the harness observes
 
-  `ranked` is one sorted permutation of `scored` (the model's).  A list of labels is an
-  admissible answer iff it has the length of the truncated ranking, its keys (score, count)
-  agree position-wise with it and it is a sub-multiset of the scored labels — exactly the
-  prefixes of sorted permutations.  The driver then answers with the implementation's own order
-  (so that `model == impl`), otherwise with the model's. -/
-
-def keyOf (counts : Option (List (Str × Nat))) (scored : List Scored) (l : Str) : Option (Nat × Nat) :=
-  (scored.find? (·.label == l)).map fun s => (s.score, countOf counts l)
-
-def subMultiset : List Str → List Str → Bool
-  | [], _ => true
-  | x :: xs, pool => pool.contains x && subMultiset xs (pool.erase x)
-
-def admissible (counts : Option (List (Str × Nat))) (scored truncated : List Scored) (impl : List Str) : Bool :=
-  impl.length == truncated.length &&
-  impl.map (keyOf counts scored) == truncated.map (fun s => some (s.score, countOf counts s.label)) &&
-  subMultiset impl (scored.map (·.label))
-
-def pickOrder (counts : Option (List (Str × Nat))) (scored truncated : List Scored) (impl : List Str) : List Str :=
-  if admissible counts scored truncated impl then impl else truncated.map (·.label)
-
-/-! ### One answer of the model, in the shape the harness observes -/
+  The ranking is `sort.SliceStable` on a deterministic candidate order, so the labels are compared
+  with the implementation's position by position. -/
 
 structure Obs where
   ctx : String
@@ -79,18 +59,13 @@ def parseObs (j : Json) : Obs :=
     filter := match jget j "f" with | .str s => some s.toList | _ => none,
     items := strArr (jget j "items"), ok := jbool j "ok" }
 
-def modelObs (fx : Bool) (t : Table) (st : Settings) (line : Str) (ch : Nat) (trig : Str) (implItems : List Str) : Obs :=
+def modelObs (t : Table) (st : Settings) (line : Str) (ch : Nat) (trig : Str) : Obs :=
   let c := determineContext line ch trig
   if c = .date then ⟨"date", none, none, [], true⟩ else
-  let scored := scoredFor goLower fx t st line ch trig
-  let counts := countsFor t c
-  let res := finish fx st line ch trig (rankExec counts scored)
-  let labels := pickOrder counts scored res.items implItems
+  let res := HL.Completion.complete goLower t st line ch trig
+  let labels := res.items.map (·.label)
   if labels.isEmpty then ⟨"none", none, none, [], true⟩
   else ⟨ctxName c, res.range, some res.query, labels, true⟩
-
-def sameObs (a b : Obs) : Bool :=
-  a.ctx == b.ctx && a.range == b.range && a.filter == b.filter && a.items == b.items && a.ok == b.ok
 
 /-! ### The oracle -/
 
@@ -109,39 +84,13 @@ def parseSpans (j : Json) : List Span :=
       k.map fun k => ⟨k, jnat e "s", jnat e "e", if jhas e "m" then jnat e "m" else jnat e "s"⟩
   | _ => []
 
-/-- A failed check: what failed and, when the failure lies inside the guard of a known finding,
-    that finding's id. -/
+/-- A failed check: what failed and, when the failure lies inside the guard of an OPEN known
+    finding, that finding's id.  C16 has no open finding: every failure is reported. -/
 abbrev Fail := String × Option String
 
-def isMarkText (c : Ctx) (s : Str) : Bool :=
-  !s.isEmpty &&
-  match c with
-  | .account => s.all fun ch => ch == ' ' || ch == '*' || ch == '!' || ch == '(' || ch == '['
-  | .payee =>
-    (s.all fun ch => ch == ' ' || ch == '*' || ch == '!') ||
-    (s.head? == some '(' && (match indexOf ')' s with
-      | some k => (s.drop (k + 1)).all (· == ' ') | none => false))
-  | _ => false
-
-/-- Guard of `segment-colon`: fuzzy matching, the fragment ends in ':' and the label matches the
-    fragment without that colon. -/
-def colonGuard (fuzzy : Bool) (frag l : Str) : Bool :=
-  fuzzy && frag.getLast? == some ':' && subseqCI goLower frag.dropLast l
-
-/-- Guard of `byprefix-narrowing`: the account lookup hit the by-prefix index with a key the
-    missing name does not start with (letter case included). -/
-def narrowGuard (t : Table) (line : Str) (col : Nat) (n : Str) : Bool :=
-  let key := extractAccountPrefix line col
-  !key.isEmpty && (t.byPrefix.lookup key).isSome && !key.isPrefixOf n
-
-/-- Guard of `short-indent`: a line indented by one to three blanks is not taken for a posting. -/
-def shortIndent (line : Str) : Bool :=
-  line.head? == some ' ' && !hasPrefix line fourBlanks
-
 def judgeOne (t : Table) (fuzzy : Bool) (max : Nat) (line : Str) (ch : Nat) (spans : List Span)
-    (o : Obs) (fixedWouldPass : Bool) : List Fail := Id.run do
+    (o : Obs) : List Fail := Id.run do
   let mut fails : List Fail := []
-  let col := takeU16 line ch
   let spans := spans.filter fun sp => sp.m ≤ ch && ch ≤ sp.e
   if o.ctx == "none" then
     -- nothing offered: only ground truth can object (names that start with the typed fragment)
@@ -149,54 +98,36 @@ def judgeOne (t : Table) (fuzzy : Bool) (max : Nat) (line : Str) (ch : Nat) (spa
       let frag := fragOf line sp.s ch
       let missing := (namesOf t sp.k).filter fun n => prefixCI goLower frag n
       if missing.isEmpty || max == 0 then [] else
-      let mc := determineContext line ch []
-      let st := (editStart true mc line col).getD col
-      if fixedWouldPass then [("no item for a typed prefix (query and replaced range disagree)", some "range-query-mismatch")]
-      else if mc == sp.k && st < takeU16 line sp.s && isMarkText sp.k ((line.take (takeU16 line sp.s)).drop st)
-      then [("no item for a typed prefix (status mark / parenthesis / code counted into the fragment)", some "fragment-includes-mark")]
-      else if sp.k == .account && mc == .account && missing.all (narrowGuard t line col)
-      then [("no item for a typed prefix (by-prefix index narrowed the candidates)", some "byprefix-narrowing")]
-      else [(s!"nothing offered although names start with the typed fragment (expected {ctxName sp.k} context)", none)]
+      [(s!"nothing offered although names start with the typed fragment (expected {ctxName sp.k} context)", none)]
   let some c := ctxOfName o.ctx | return [(s!"unexpected answer kind {o.ctx}", none)]
   if c == .date then
-    return spans.map fun sp =>
-      if (sp.k == .account || sp.k == .commodity) && shortIndent line
-      then ("dates offered on a posting line indented by fewer than four blanks", some "short-indent")
-      else (s!"context date where a {ctxName sp.k} is being typed", none)
+    return spans.map fun sp => (s!"context date where a {ctxName sp.k} is being typed", none)
   if !o.ok then fails := fails ++ [("items are not uniform (kind / range / filterText / newText / sortText / isIncomplete)", none)]
   if !judged c then return fails
-  let edKnown : Option String := if fixedWouldPass then some "range-query-mismatch" else none
   -- the fragment as the answer itself defines it: the text its edit range covers
   let mut frag : Str := []
   let mut fragOk := true
-  if c != .tagName then
-    match o.range with
-    | none => fails := fails ++ [("no edit range", none)]; fragOk := false
-    | some r =>
-      if !editOK ch r then
-        fails := fails ++ [(s!"edit range [{r.1},{r.2}] is not [s,cursor] with s <= cursor = {ch}", edKnown)]
+  match o.range with
+  | none => fails := fails ++ [("no edit range", none)]; fragOk := false
+  | some r =>
+    if !editOK ch r then
+      fails := fails ++ [(s!"edit range [{r.1},{r.2}] is not [s,cursor] with s <= cursor = {ch}", none)]
+      fragOk := false
+    else
+      frag := fragOf line r.1 r.2
+      if o.filter != some frag then
+        fails := fails ++ [("the text in the edit range is not the query (filterText)", none)]
         fragOk := false
-      else
-        frag := fragOf line r.1 r.2
-        if o.filter != some frag then
-          fails := fails ++ [("the text in the edit range is not the query (filterText)", edKnown)]
-          fragOk := false
-  else
-    if o.range.isSome then fails := fails ++ [("tag items carry an edit range", none)]
   if !boundedOK o.items max then fails := fails ++ [(s!"more than {max} items", none)]
   if fragOk then
     -- sound
     let bad := o.items.filter fun l => !((namesOf t c).contains l && matchesQ goLower fuzzy frag l)
     if !bad.isEmpty then
-      if bad.all fun l => (namesOf t c).contains l && colonGuard fuzzy frag l then
-        fails := fails ++ [("label matches only after the trailing ':' of the fragment is dropped", some "segment-colon")]
-      else fails := fails ++ [(s!"label {String.ofList bad.head!} is not a name of the context or does not match the fragment", none)]
+      fails := fails ++ [(s!"label {String.ofList bad.head!} is not a name of the context or does not match the fragment", none)]
     -- prefix-complete
     if !completeOK goLower t c frag o.items max then
       let missing := (namesOf t c).filter fun n => prefixCI goLower frag n && !o.items.contains n
-      if c == .account && missing.all (narrowGuard t line col) then
-        fails := fails ++ [("a name that starts with the fragment is missing (by-prefix index narrowed the candidates)", some "byprefix-narrowing")]
-      else fails := fails ++ [(s!"name {String.ofList missing.head!} starts with the fragment but is not offered", none)]
+      fails := fails ++ [(s!"name {String.ofList missing.head!} starts with the fragment but is not offered", none)]
     if !rankedOK t c frag o.items then fails := fails ++ [("empty fragment but counts increase along the list", none)]
   -- ground truth: the name the generator was typing
   for sp in spans do
@@ -206,23 +137,17 @@ def judgeOne (t : Table) (fuzzy : Bool) (max : Nat) (line : Str) (ch : Nat) (spa
         fails := fails ++ [(s!"context {ctxName c} where a {ctxName sp.k} is being typed", none)]
       else
         let mut gOk := true
-        if c != .tagName then
-          match o.range with
-          | some r =>
-            if r.1 != sp.s then
-              gOk := false
-              if r.1 < sp.s && isMarkText c (fragOf line r.1 sp.s) then
-                fails := fails ++ [("the replaced range includes a status mark / parenthesis / code", some "fragment-includes-mark")]
-              else if !editOK ch r then pure ()  -- already reported above
-              else fails := fails ++ [(s!"edit range starts at {r.1}, the typed name at {sp.s}", none)]
-          | none => gOk := false
+        match o.range with
+        | some r =>
+          if r.1 != sp.s then
+            gOk := false
+            if !editOK ch r then pure ()  -- already reported above
+            else fails := fails ++ [(s!"edit range starts at {r.1}, the typed name at {sp.s}", none)]
+        | none => gOk := false
         if gOk then
           let bad := o.items.filter fun l => !matchesQ goLower fuzzy gfrag l
           if !bad.isEmpty then
-            if c == .tagName then
-              fails := fails ++ [("tag names are offered whatever has been typed", some "tag-fragment-ignored")]
-            else if bad.all (colonGuard fuzzy gfrag) then pure ()  -- reported above (same fragment)
-            else fails := fails ++ [(s!"label {String.ofList bad.head!} does not match the typed fragment", none)]
+            fails := fails ++ [(s!"label {String.ofList bad.head!} does not match the typed fragment", none)]
   return fails
 
 def failsVerdict (fails : List Fail) : Bool × List String × String :=
@@ -244,7 +169,6 @@ def complete (j : Json) : Json := Id.run do
   let impl := (jarr j "impl").toList.map parseObs
   let spans := parseSpans (jget j "spans")
   let maxOK := decide (1 ≤ maxRaw ∧ maxRaw ≤ 200)
-  let idxOK := indexSuperset t
   let mut out : Array Json := #[]
   let mut fails : List Fail := []
   let mut domain := false
@@ -252,20 +176,14 @@ def complete (j : Json) : Json := Id.run do
   for ch in chs do
     let trig := trs.getD i []
     let o := (impl[i]?).getD ⟨"none", none, none, [], true⟩
-    let mFixed := modelObs true t st line ch trig o.items
-    let m := if sameObs mFixed o then mFixed else
-      let mPinned := modelObs false t st line ch trig o.items
-      if sameObs mPinned o then mPinned else mFixed
-    out := out.push (obsJson m)
+    out := out.push (obsJson (modelObs t st line ch trig))
     -- the property's domain: a cursor on a character boundary of the line, an invoked request
     -- (the quantifier has no trigger characters; those are compared with the model only),
     -- maxResults 1..200
     let trigOK := trig.isEmpty
     if validCursor line ch && trigOK && maxOK then
       domain := true
-      if !idxOK then fails := fails ++ [("a by-prefix list lacks a name that starts with its key", none)]
-      let fixedWouldPass := !(sameObs mFixed o)
-      let fs := judgeOne t st.fuzzy (normMax maxRaw) line ch spans o fixedWouldPass
+      let fs := judgeOne t st.fuzzy (normMax maxRaw) line ch spans o
       fails := fails ++ fs.map fun f => (s!"ch {ch}: {f.1}", f.2)
     i := i + 1
   let (ok, ids, why) := failsVerdict fails
@@ -284,21 +202,12 @@ def pair (j : Json) : Json := Id.run do
   let impl := (jarr j "impl").toList.map parseObs
   let o1 := impl.getD 0 ⟨"none", none, none, [], true⟩
   let o2 := impl.getD 1 ⟨"none", none, none, [], true⟩
-  let mk := fun (mx : Int) (o : Obs) =>
-    let a := modelObs true t ⟨mx, fuzzy⟩ line ch trig o.items
-    if sameObs a o then a else
-    let b := modelObs false t ⟨mx, fuzzy⟩ line ch trig o.items
-    if sameObs b o then b else a
-  let a := mk m1 o1
-  let b := mk m2 o2
+  let a := modelObs t ⟨m1, fuzzy⟩ line ch trig
+  let b := modelObs t ⟨m2, fuzzy⟩ line ch trig
   let domain := validCursor line ch && decide (1 ≤ m1 ∧ m1 < m2 ∧ m2 ≤ 200)
   let ok := limitPrefixOK (normMax m1) o1.items o2.items
-  -- included files are visited in Go map order: with two or more of them the order inside a
-  -- tie class may differ between two requests
-  let nfiles := match jget j "files" with | .obj kvs => kvs.size | _ => 0
-  let known : List String := if !ok && nfiles ≥ 3 then ["limit-prefix-tie-order"] else []
   return Json.mkObj [("model", Json.arr #[obsJson a, obsJson b]), ("spec_ok", !domain || ok),
-    ("in_domain", domain), ("known", Json.arr (known.map Json.str).toArray),
+    ("in_domain", domain), ("known", Json.arr #[]),
     ("why", "the list for the smaller maxResults is not a prefix of the list for the larger one"),
     ("nontrivial", domain && o2.items.length > o1.items.length)]
 
@@ -306,7 +215,6 @@ def pair (j : Json) : Json := Id.run do
 def range (j : Json) : Json := Id.run do
   let line := jstrL j "line"
   let trs := (jarr j "trs").toList.map strOf
-  let impl := jarr j "impl"
   let n := u16len line
   let mut out : Array Json := #[]
   let mut i := 0
@@ -314,11 +222,8 @@ def range (j : Json) : Json := Id.run do
     for ch in List.range (n + 2) do
       let c := determineContext line ch tr
       let col := takeU16 line ch
-      let mk := fun (fx : Bool) => Json.mkObj [("ctx", ctxName c), ("r", rangeJson (editRange fx c line ch)),
-        ("q", jsonStr (extractQuery fx c line col)), ("pre", jsonStr (extractAccountPrefix line col))]
-      let a := mk true
-      let o := (impl[i]?).getD .null
-      out := out.push (if a == o then a else let b := mk false; if b == o then b else a)
+      out := out.push (Json.mkObj [("ctx", ctxName c), ("r", rangeJson (editRange c line ch)),
+        ("q", jsonStr (extractQuery c line col)), ("pre", jsonStr (extractAccountPrefix line col))])
       i := i + 1
   return Json.mkObj [("model", Json.arr out)]
 
@@ -345,9 +250,7 @@ def filter (j : Json) : Json :=
 def rank (j : Json) : Json :=
   let scored := (jarr j "scored").toList.map fun e => (⟨jstrL e "l", jnat e "s"⟩ : Scored)
   let counts : Option (List (Str × Nat)) := if jbool j "nil" then none else some (kvCounts (jget j "counts"))
-  let impl := strArr (jget j "impl")
-  let ranked := rankExec counts scored
-  Json.mkObj [("model", jsonStrs (pickOrder counts scored ranked impl))]
+  Json.mkObj [("model", jsonStrs ((rankExec counts scored).map (·.label)))]
 
 def lowerOp (j : Json) : Json :=
   Json.mkObj [("model", jsonStr ((jstrL j "s").map goLower))]
